@@ -49,7 +49,7 @@ pub fn run(args: &Args, rep: &mut Report) {
     };
     let dir = format!("{}/pr-{}-{}", scratch, std::process::id(), args.shard);
     std::fs::create_dir_all(&dir).unwrap();
-    let nsets = args.get_u64("n", if thorough { 480 } else { 32 });
+    let nsets = args.get_u64("n", if thorough { 240 } else { 16 });
     let only: Option<u64> = args.case.as_ref().and_then(|c| c.parse().ok());
     for i in 0..nsets {
         if !args.mine(i) {
@@ -82,7 +82,7 @@ pub fn run(args: &Args, rep: &mut Report) {
         // presentations
         let mut pres: Vec<Presentation> = vec![Presentation::plain()];
         let widths = [1usize, 2, 59, 60, 80, 100_000];
-        let count = if thorough { 13 } else { 7 };
+        let count = if thorough { 13 } else { 6 };
         for v in 0..count {
             let mut q = Presentation::plain();
             q.gz = [0u8, 1, 2, 2][v % 4];
